@@ -64,6 +64,7 @@ PROBES = [
     "torch_tool", "kaldi_tool", "raw_no_computer", "preemphasis", "dither_determinism", "postprocess",
     "multichannel_select", "too_short_utterance", "zero_length_utterance", "yaml_config", "json_file_config",
     "workers_sim", "si_computer", "include_energy_empty", "kaldi_default_channel0", "order_probe",
+    "utterance_longer_than_2_20",
 ]
 FAULT_KINDS = ["poison_min_duration", "poison_rate_mismatch", "poison_channel_range"]
 
@@ -92,6 +93,23 @@ def generate(rng, tier, k):
                           "num_workers": rng.choice((0, 0, 2)), "schedule": [rng.randrange(8) for _ in range(6)]}
                          for _ in range(2)]}
     tool = "torch" if rng.random() < 0.6 else "kaldi"
+    if rng.random() < 0.012:
+        # a recording longer than 2**20 samples next to a short one (block-wise processing must not show)
+        from sim.clisim.c10 import _cfg_small
+
+        cfg = _cfg_small("stft")
+        cfg["bank"]["rate"] = 16000
+        cfg["bank"]["high_hz"] = 7600.0
+        cfg["frame_length"], cfg["frame_shift"] = 400, 160
+        corpus = [{"id": "long", "container": "npy" if tool == "torch" else "wav", "n": (1 << 20) + rng.randrange(1, 6000),
+                   "seed": rng.randrange(1 << 30), "channels": 1, "store_dtype": "int16", "rate": 16000},
+                  {"id": "short", "container": "npy" if tool == "torch" else "wav", "n": rng.randrange(800, 3000),
+                   "seed": rng.randrange(1 << 30), "channels": 1, "store_dtype": "int16", "rate": 16000}]
+        if rng.random() < 0.5:
+            corpus.reverse()
+        return {"tool": tool, "corpus": corpus, "cfg": cfg, "pre": [{"name": "preemphasize", "coeff": 0.97}], "post": [],
+                "args": {"seed": None}, "long": True,
+                "runs": [{"syntax": "inline", "ambient": rng.randrange(1 << 20), "num_workers": 0, "schedule": []}]}
     nutt = rng.choice((1, 2, 3, 3, 4, 5, 6, 8))
     r = rng.random()
     if r < 0.12 and tool == "torch":
@@ -340,6 +358,8 @@ def _run(scn, d, res, tr):
         res.probe("preemphasis")
     if scn.get("post"):
         res.probe("postprocess")
+    if scn.get("long"):
+        res.probe("utterance_longer_than_2_20")
     keep, excluded = _expected_ids(scn)
     for kind in excluded.values():
         res.fault("poison_" + kind)
